@@ -285,6 +285,81 @@ Definition name_check (b : bspec) (start_name end_name : option name) (strict : 
   | None, None => None
   end.
 
+(* one iteration of the BlockBase.match loop after the class at index i has been fetched and the
+   leading comments of the DO-label hook absorbed; [cont] continues the loop *)
+Definition block_step (rec : matcher) (b : bspec) (start_idx : nat) (cont : lst -> M lout)
+           (lc : lcls) (st : lst) : M lout :=
+  let startinfo := match nth_error (l_content st) start_idx with Some t => tinfo t | None => noinfo end in
+  hook <- (if b_do_hook b then
+             match b_start b with
+             | Some stc =>
+                 o <- call rec stc ;;
+                 match o with
+                 | Some t =>
+                     if c_has_start_label (entry (tcls t)) then
+                       if oN_eqb (start_label startinfo) (start_label (tinfo t))
+                       then ret (Some t)
+                       else lift (restore [t]) ;;; ret None
+                     else ret None                  (* not restored: as the code *)
+                 | None => ret None
+                 end
+             | None => raise EOther                 (* startcls(reader) with startcls None *)
+             end
+           else ret None) ;;
+  match hook with
+  | Some t => cont
+                (mkLst (l_content st ++ [t]) (l_i st) (l_had st) (l_ifh st) (l_whh st))
+  | None =>
+    o <- catch_nomatch (call_l rec lc) ;;
+    match o with
+    | None => cont
+                (mkLst (l_content st) (S (l_i st)) (l_had st) (l_ifh st) (l_whh st))
+    | Some t =>
+      let ce := entry (tcls t) in
+      if b_labeldo_abort b && c_has_end_label ce
+         && oN_eqb (start_label startinfo) (end_label (tinfo t))
+         && negb (mem (tcls t) (t_enddo_continue T))
+      then lift (restore [t]) ;;; lift (restore (l_content st)) ;;; ret LAbort
+      else
+        let content := l_content st ++ [t] in
+        (* match_names and isinstance(obj, match_name_classes) *)
+        let e1 := if b_match_names b && mem (tcls t) (b_name_classes b)
+                  then match end_name (tinfo t), start_name startinfo with
+                       | Some _, None => Some ESyntax
+                       | Some e, Some s0 => if N.eqb e s0 then None else Some ESyntax
+                       | None, _ => None
+                       end
+                  else None in
+        match e1 with
+        | Some e => raise e
+        | None =>
+          let is_end := match b_end b with Some _ => mem (tcls t) (b_endall b) | None => false end in
+          if is_end && b_match_labels b
+             && negb (oN_eqb (start_label startinfo) (end_label (tinfo t)))
+          then (* labels differ: continue, i unchanged *)
+            cont (mkLst content (l_i st) true (l_ifh st) (l_whh st))
+          else if is_end then
+            match (if b_match_names b
+                   then name_check b (start_name startinfo) (end_name (tinfo t)) (b_strict_names b)
+                   else None) with
+            | Some e => raise e
+            | None => ret (LBreak content true true)
+            end
+          else
+            let i1 := if b_strict_order b then l_i st else 0 in
+            let i2 := if l_ifh st && mem (tcls t) (t_elseif T) then 0 else i1 in
+            let ifh := l_ifh st && negb (mem (tcls t) (t_else_endif T)) in
+            let i3 := if l_whh st && mem (tcls t) (t_maskedelse T) then 0 else i2 in
+            let whh := l_whh st && negb (mem (tcls t) (t_else_endwhere T)) in
+            cont (mkLst content i3 true ifh whh)
+        end
+    end
+  end
+.
+
+Definition hook_cid (rec : matcher) (b : bspec) (content : list tree) : M (list tree) :=
+  if b_do_hook b then (fun s => add_cid rec (length (stream s) + 2) content s) else ret content.
+
 Fixpoint block_loop (rec : matcher) (b : bspec) (classes : list lcls) (start_idx : nat)
          (k : nat) (st : lst) : M lout :=
   match k with
@@ -293,73 +368,10 @@ Fixpoint block_loop (rec : matcher) (b : bspec) (classes : list lcls) (start_idx
     match nth_error classes (l_i st) with
     | None => ret (LBreak (l_content st) (l_had st) false)       (* while i < len(classes) *)
     | Some lc =>
-      let startinfo := match nth_error (l_content st) start_idx with Some t => tinfo t | None => noinfo end in
-      (* enable_do_label_construct_hook *)
-      hook <- (if b_do_hook b then
-                 match b_start b with
-                 | Some stc =>
-                     o <- call rec stc ;;
-                     match o with
-                     | Some t =>
-                         if c_has_start_label (entry (tcls t)) then
-                           if oN_eqb (start_label startinfo) (start_label (tinfo t))
-                           then ret (Some t)
-                           else lift (restore [t]) ;;; ret None
-                         else ret None                  (* not restored: as the code *)
-                     | None => ret None
-                     end
-                 | None => raise EOther                 (* startcls(reader) with startcls None *)
-                 end
-               else ret None) ;;
-      match hook with
-      | Some t => block_loop rec b classes start_idx k'
-                    (mkLst (l_content st ++ [t]) (l_i st) (l_had st) (l_ifh st) (l_whh st))
-      | None =>
-        o <- catch_nomatch (call_l rec lc) ;;
-        match o with
-        | None => block_loop rec b classes start_idx k'
-                    (mkLst (l_content st) (S (l_i st)) (l_had st) (l_ifh st) (l_whh st))
-        | Some t =>
-          let ce := entry (tcls t) in
-          if b_labeldo_abort b && c_has_end_label ce
-             && oN_eqb (start_label startinfo) (end_label (tinfo t))
-             && negb (mem (tcls t) (t_enddo_continue T))
-          then lift (restore [t]) ;;; lift (restore (l_content st)) ;;; ret LAbort
-          else
-            let content := l_content st ++ [t] in
-            (* match_names and isinstance(obj, match_name_classes) *)
-            let e1 := if b_match_names b && mem (tcls t) (b_name_classes b)
-                      then match end_name (tinfo t), start_name startinfo with
-                           | Some _, None => Some ESyntax
-                           | Some e, Some s0 => if N.eqb e s0 then None else Some ESyntax
-                           | None, _ => None
-                           end
-                      else None in
-            match e1 with
-            | Some e => raise e
-            | None =>
-              let is_end := match b_end b with Some _ => mem (tcls t) (b_endall b) | None => false end in
-              if is_end && b_match_labels b
-                 && negb (oN_eqb (start_label startinfo) (end_label (tinfo t)))
-              then (* labels differ: continue, i unchanged *)
-                block_loop rec b classes start_idx k' (mkLst content (l_i st) true (l_ifh st) (l_whh st))
-              else if is_end then
-                match (if b_match_names b
-                       then name_check b (start_name startinfo) (end_name (tinfo t)) (b_strict_names b)
-                       else None) with
-                | Some e => raise e
-                | None => ret (LBreak content true true)
-                end
-              else
-                let i1 := if b_strict_order b then l_i st else 0 in
-                let i2 := if l_ifh st && mem (tcls t) (t_elseif T) then 0 else i1 in
-                let ifh := l_ifh st && negb (mem (tcls t) (t_else_endif T)) in
-                let i3 := if l_whh st && mem (tcls t) (t_maskedelse T) then 0 else i2 in
-                let whh := l_whh st && negb (mem (tcls t) (t_else_endwhere T)) in
-                block_loop rec b classes start_idx k' (mkLst content i3 true ifh whh)
-            end
-        end
-      end
+      (* enable_do_label_construct_hook: comments/includes/directives first, then startcls(reader) *)
+      cm <- hook_cid rec b (l_content st) ;;
+      block_step rec b start_idx (block_loop rec b classes start_idx k') lc
+                 (mkLst cm (l_i st) (l_had st) (l_ifh st) (l_whh st))
     end
   end.
 
